@@ -41,6 +41,15 @@ CHECKS = {
             'channels open successfully; tracking band one wide; settling only when a stable size exists with 8% margins',
             'Hypothesis op-list state machine on the virtual clock with instrumented aperture adjustments',
             '5/C06', 'simkernel'),
+    'C07': ('exploration',
+            'Generated pool configurations and submit/complete/same-instant double release/advance/kill histories against the '
+            'real ClientTimeoutSink -> WatermarkPoolSink chain over harness connections on the virtual clock; invariants after '
+            'every step (capacity bound, no double lending, FIFO, max-waiters exactly when full and at once, work conservation, '
+            'dead-on-release closes the pool and fails each waiter once) and end-of-run leak probe (retained <= min, a burst of '
+            'max requests all reach connections).',
+            'connections open successfully; a lent request that timed out no longer occupies its connection',
+            'Hypothesis op-list state machine on real timeout sink + pool vs queue/capacity model',
+            '5/C07', 'simkernel'),
     'C10': ('exploration',
             'Generated schedule/cancel/advance histories (actions may schedule or cancel) are run against the real '
             'TimerQueue on a virtual clock and compared with a reference schedule after every clock advance: '
